@@ -120,7 +120,10 @@ class BlockChain(object):
             )
         old_chain_finder = self.chain_finder
         self.chain_finder = ChainFinder()
-        self._longest_chain_cache = None
+        # the reported chain must not change by locking: keep the unlocked rest
+        # of the current longest chain (the rebuilt finder may list equally
+        # heavy chains in another order)
+        self._longest_chain_cache = longest_chain[: len(longest_chain) - index]
 
         def iterate() -> Generator[tuple[Any, Any], None, None]:
             for tree in old_chain_finder.trees_from_bottom.values():
